@@ -52,25 +52,29 @@ def gen_case(rng):
     return case, ops
 
 
-def close_bits(a, b, exact):
+def close_bits(a, b, exact, f32_overflow=False, scale=1.0):
+    """`f32_overflow`: model (binary64) against implementation (binary32) after arithmetic — a value that left the binary32 range on either side
+    (±inf, NaN from inf·0 or inf−inf, or beyond 1e30) is not compared: the two arithmetics legitimately part ways there"""
     if a == b:
         return True
     x, y = bits_f64(a), bits_f64(b)
+    if f32_overflow and not exact and (not math.isfinite(x) or not math.isfinite(y) or abs(x) > 1e30 or abs(y) > 1e30):
+        return True
     if math.isnan(x) or math.isnan(y):
         return math.isnan(x) and math.isnan(y)
     if exact:
         return x == y
-    return abs(x - y) <= 1e-5 * max(1.0, abs(x), abs(y))
+    return abs(x - y) <= 1e-5 * max(1.0, abs(x), abs(y), scale)
 
 
-def same_view(a, b, exact=True):
+def same_view(a, b, exact=True, f32_overflow=False, scale=1.0):
     if "error" in a or "error" in b:
         return ("error" in a) == ("error" in b), "one side raises"
     if "rows" in a or "rows" in b:
         if "rows" not in a or "rows" not in b or len(a["rows"]) != len(b["rows"]):
             return False, "flatten rows differ in number"
         for r1, r2 in zip(a["rows"], b["rows"]):
-            if len(r1) != len(r2) or not all(close_bits(x, y, False) for x, y in zip(r1, r2)):
+            if len(r1) != len(r2) or not all(close_bits(x, y, False, f32_overflow, scale) for x, y in zip(r1, r2)):
                 return False, "a flatten row differs"
         return True, None
     def norm(sh):                 # extents after an empty axis cannot be told apart (nothing is stored): compare up to the first 0
@@ -83,7 +87,7 @@ def same_view(a, b, exact=True):
         return False, "confidence"
     if a["missing"] is not None and b["missing"] is not None and a["missing"] != b["missing"]:
         return False, "missing pattern"
-    if not all(close_bits(x, y, exact) for x, y in zip(a["zf"], b["zf"])):
+    if not all(close_bits(x, y, exact, f32_overflow, scale) for x, y in zip(a["zf"], b["zf"])):
         return False, "zero-filled coordinates"
     return True, None
 
@@ -105,7 +109,10 @@ def run(ctx):
         case, ops = gen_case(rng)
         raw = refenc.v02(case)
         for route in ("read", "convert"):
-            cases.append({"hex": raw.hex(), "route": route, "ops": ops, "shape": [case["body"][k] for k in ("frames", "people", "points", "dims")], "case": case})
+            vals = np.array(case["body"]["data"], dtype=np.uint32).view(np.float32).astype(np.float64)
+            vals = np.abs(vals[np.isfinite(vals)])
+            cases.append({"hex": raw.hex(), "route": route, "ops": ops, "shape": [case["body"][k] for k in ("frames", "people", "points", "dims")], "case": case,
+                          "maxabs": float(vals.max()) if vals.size else 1.0})
     results = {}
     for be in ("numpy", "torch"):
         results[be] = [bodyexec.run_case(c, be) for c in cases]
@@ -160,7 +167,10 @@ def run(ctx):
                 m = model[be][i]["steps"]
                 if n >= len(m) or "error" in m[n]:
                     ctx.violation("model refuses an operation the implementation performs", info, {"backend": be, "step": n, "operation": opname}, False, size=len(c["hex"])); stop = True; continue
-                ok, why = same_view(m[n], steps[be][n], exact)
+                # after matrix products the rounding error of binary32 is relative to the operands, not to a result that may have cancelled: scale by the
+                # largest finite input magnitude times the growth of the products so far (entries ≤ 2 in absolute value, ≤ 4 columns)
+                nmat = sum(1 for o in c["ops"][:n] if o["k"] == "matmul")
+                ok, why = same_view(m[n], steps[be][n], exact, f32_overflow=True, scale=c["maxabs"] * (8.0 ** nmat))
                 if ok and "data" in m[n] and "data" in steps[be][n] and exact and opname != "matmul":
                     ok = all(close_bits(x, y, True) for x, y in zip(m[n]["data"], steps[be][n]["data"])); why = "raw coordinates"
                 if not ok:
